@@ -133,12 +133,39 @@ def f_safe(i, v):
     return Markup(_U().soft(v))
 
 
+def f_truncate(i, v, length=255, killwords=False, end="...", leeway=None):
+    """docs: 'Strings that only exceed the length by the tolerance margin given in the fourth
+    parameter will not be truncated' (default 5); cut at length (the end sign included) when
+    killwords is true, otherwise discard the last word."""
+    s = _U().soft(_need(v))
+    if leeway is None:
+        leeway = 5
+    if len(s) <= length + leeway:
+        return s
+    if killwords:
+        return s[:length - len(end)] + end
+    return s[:length - len(end)].rsplit(" ", 1)[0] + end
+
+
+def f_unique(i, v, case_sensitive=False, attribute=None):
+    """docs: unique items in the order of their first occurrence; strings compared
+    case-insensitively unless case_sensitive."""
+    seen = set()
+    out = []
+    for x in _need(v):
+        k = x.lower() if isinstance(x, str) and not case_sensitive else x
+        if k not in seen:
+            seen.add(k)
+            out.append(x)
+    return out
+
+
 FILTERS = {
     "default": f_default, "d": f_default, "upper": f_upper, "lower": f_lower,
     "length": f_length, "count": f_length, "abs": f_abs, "string": f_string,
     "join": f_join, "first": f_first, "last": f_last, "list": f_list, "sort": f_sort,
     "sum": f_sum, "trim": f_trim, "capitalize": f_capitalize, "max": f_max, "min": f_min,
-    "int": f_int, "replace": f_replace, "safe": f_safe,
+    "int": f_int, "replace": f_replace, "safe": f_safe, "truncate": f_truncate, "unique": f_unique,
 }
 
 
